@@ -474,6 +474,20 @@ OpsAfterSetT(o, id) == IF id = 1 THEN "openssl" ELSE IF id = 2 THEN "gnutls" ELS
 OpsSetTRet(id) == IF id \in {1, 2} THEN 0 ELSE 1
 
 (***************************************************************************)
+(* 9b. Command-line tools: what an observed run must satisfy      C20      *)
+(*     (the tools as process machines are in Tools.tla)                    *)
+(***************************************************************************)
+\* jwt-verify over `good` verifying and `bad` failing tokens exited with `code`
+P_VerifyExit(good, bad, code) == (code = 0) <=> (bad = 0)
+\* key2jwk output for an EC key of `bits`: fixed-width x, y (and d when private), RFC 7518 6.2
+FieldLen(bits) == (bits + 7) \div 8
+P_EcWidths(bits, priv, xlen, ylen, dlen) ==
+  xlen = FieldLen(bits) /\ ylen = FieldLen(bits) /\ (priv = 1 => dlen = FieldLen(bits))
+\* an imported item (projection) denotes the key it was made from
+P_SameKey(it, kty, bits, priv) ==
+  it.err = 0 /\ it.kty = kty /\ it.bits = bits /\ it.priv = priv /\ it.mat.pub = 1 /\ (priv = 1 => it.mat.prv = 1)
+
+(***************************************************************************)
 (* 10. State and actions                                                   *)
 (***************************************************************************)
 VARIABLES now, ops, rings, builders, checkers, toks, nextId
